@@ -41,8 +41,14 @@ pub fn hex(b: &[u8]) -> String {
     hex::encode(b)
 }
 
+/// where the most recent panic was raised ("file:line: message"); panics are silent (most are expected and caught as data)
+pub static LAST_PANIC: std::sync::Mutex<String> = std::sync::Mutex::new(String::new());
 pub fn silence_panics() {
-    std::panic::set_hook(Box::new(|_| {}));
+    std::panic::set_hook(Box::new(|info| {
+        let loc = info.location().map(|l| format!("{}:{}", l.file(), l.line())).unwrap_or_default();
+        let msg = if let Some(s) = info.payload().downcast_ref::<&str>() { s.to_string() } else if let Some(s) = info.payload().downcast_ref::<String>() { s.clone() } else { String::new() };
+        if let Ok(mut g) = LAST_PANIC.try_lock() { *g = format!("{}:\n{}", loc, msg); }
+    }));
 }
 
 /// Runs `f`, turning a panic in the code under test into data.
